@@ -41,6 +41,9 @@ func checkC15(c *Ctx) {
 		c.Undecided("C15-R1", "package terminfo", "-", "not loaded")
 		return
 	}
+	c.Rule("C15-R9", "LookupTerminfo leaves the registry as it is: neither it nor what it calls reaches AddTerminfo or writes the map (an entry fabricated for NAME-256color and registered on the fly replaces the built-in base entry)")
+	c.Expect("C15-R9", 1)
+	checkLookupDoesNotRegister(c, p, "C15-R9")
 	db := buildDB(c, p)
 	c15Goto(c, p)
 	c15Addressing(c, p, db)
